@@ -1,5 +1,6 @@
 import XlModel.Readers
 import XlModel.ReadersState
+import XlModel.ReadersRender
 import XlModel.Drv.Util
 /-
 Line protocol of C04 (one output line per input line):
@@ -125,6 +126,35 @@ def step (st : St) (w : List String) : St × String :=
     match items.mapM parse with
     | some is => (st, if is.isEmpty then "bad-op" else "ok " ++ showRow (spillStrings is))
     | none => (st, "bad-op")
+  | "typed" :: raw :: rest =>
+    -- typed <raw 0|1> <sst items…> / <cells…>: items `p:<hex>` / `r:<hex>:<hex>`; cells
+    -- `<t>:<hexV>` with t ∈ b,d,s,str,e,n or `is:<item>` (inline string); a row of these cells
+    let item (w : String) : Option SI :=
+      match w.splitOn ":" with
+      | ["p", h] => (unhexS h).map fun v => ⟨some v, []⟩
+      | ["r", h1, h2] => match unhexS h1, unhexS h2 with
+        | some a, some b => some ⟨none, [a, b]⟩
+        | _, _ => none
+      | _ => none
+    let cell (w : String) : Option (CellT × Val × Option SI) :=
+      match w.splitOn ":" with
+      | "is" :: it => (item (":".intercalate it)).map fun x => (CellT.inlineStr, [], some x)
+      | [t, h] =>
+        let ty : Option CellT := match t with
+          | "b" => some .b | "d" => some .d | "s" => some .s | "str" => some .str
+          | "e" => some .e | "n" => some .n | _ => none
+        match ty, unhexS h with
+        | some ty, some v => some (ty, v, none)
+        | _, _ => none
+      | _ => none
+    let (its, cs) := (rest.takeWhile (· ≠ "/"), (rest.dropWhile (· ≠ "/")).drop 1)
+    match its.mapM item, cs.mapM cell with
+    | some sst, some cells =>
+      if cells.isEmpty || !(raw = "0" || raw = "1") then (st, "bad-op") else
+      let tcs : List TCell := cells.mapIdx fun i c => ⟨i + 1, 1, c.1, c.2.1, c.2.2, false⟩
+      let sh := toSheet sst (raw = "1") [⟨1, false, tcs⟩]
+      (st, "ok " ++ showRow ((getRows sh)[0]?.getD []))
+    | _, _ => (st, "bad-op")
   | ["dump"] => withLoaded st fun w => (⟨st.raw, w⟩, showDump w.sheet)
   | ["spec", c, r] =>
     match c.toNat?, r.toNat? with
